@@ -321,6 +321,7 @@ var integer64 = []*instructionType{
 	}, {
 		name:         "slli",
 		opcode:       opcodeShiftImm(false, 6, 0b001, 0b0010011),
+		shamtBits:    6,
 		inputRegCnt:  1,
 		hasOutputReg: true,
 		effects: func(i instruction) []expr.Effect {
@@ -330,6 +331,7 @@ var integer64 = []*instructionType{
 	}, {
 		name:         "srli",
 		opcode:       opcodeShiftImm(false, 6, 0b101, 0b0010011),
+		shamtBits:    6,
 		inputRegCnt:  1,
 		hasOutputReg: true,
 		effects: func(i instruction) []expr.Effect {
@@ -339,6 +341,7 @@ var integer64 = []*instructionType{
 	}, {
 		name:         "srai",
 		opcode:       opcodeShiftImm(true, 6, 0b101, 0b0010011),
+		shamtBits:    6,
 		inputRegCnt:  1,
 		hasOutputReg: true,
 		effects: func(i instruction) []expr.Effect {
@@ -543,6 +546,7 @@ var integer64 = []*instructionType{
 		},
 	}, {
 		name:         "csrrwi",
+		csrImm:       true,
 		opcode:       opcode10(0b101, 0b1110011),
 		inputRegCnt:  0,
 		hasOutputReg: true,
@@ -557,6 +561,7 @@ var integer64 = []*instructionType{
 		},
 	}, {
 		name:         "csrrsi",
+		csrImm:       true,
 		opcode:       opcode10(0b110, 0b1110011),
 		inputRegCnt:  0,
 		hasOutputReg: true,
@@ -573,6 +578,7 @@ var integer64 = []*instructionType{
 		},
 	}, {
 		name:         "csrrci",
+		csrImm:       true,
 		opcode:       opcode10(0b111, 0b1110011),
 		inputRegCnt:  0,
 		hasOutputReg: true,
@@ -604,6 +610,7 @@ var integer64 = []*instructionType{
 	}, {
 		name:         "slliw",
 		opcode:       opcodeShiftImm(false, 5, 0b001, 0b0011011),
+		shamtBits:    5,
 		inputRegCnt:  1,
 		hasOutputReg: true,
 		effects: func(i instruction) []expr.Effect {
@@ -613,6 +620,7 @@ var integer64 = []*instructionType{
 	}, {
 		name:         "srliw",
 		opcode:       opcodeShiftImm(false, 5, 0b101, 0b0011011),
+		shamtBits:    5,
 		inputRegCnt:  1,
 		hasOutputReg: true,
 		effects: func(i instruction) []expr.Effect {
@@ -622,6 +630,7 @@ var integer64 = []*instructionType{
 	}, {
 		name:         "sraiw",
 		opcode:       opcodeShiftImm(true, 5, 0b101, 0b0011011),
+		shamtBits:    5,
 		inputRegCnt:  1,
 		hasOutputReg: true,
 		effects: func(i instruction) []expr.Effect {
